@@ -110,6 +110,24 @@ def handleRewrite (j : Json) : R Json := do
   let ls ← ls.toList.mapM (fun l => do pure (bytesOf (← l.getStr?)))
   pure (jEsc (Clem.LogFrame.rewritePayload ls))
 
+/- Raw-write monitor.  Bytes travel as latin-1 text (one code point per byte: chunks may end
+   inside a UTF-8 sequence).  `groups[i]` = raw writes of the i-th opened handle, `expect[i]` =
+   the bytes that handle must have produced; with `merge`, every interleaving of the first two
+   groups' chunks must parse into exactly their lines. -/
+def handleRawWrites (j : Json) : R Json := do
+  let groups ← (← fldArr j "groups").toList.mapM (fun g => do
+    (← g.getArr?).toList.mapM (fun c => do pure (cps (← c.getStr?))))
+  let expect ← (← fldArr j "expect").toList.mapM (fun c => do pure (cps (← c.getStr?)))
+  let merge ← fldBool j "merge"
+  let each := groups.length == expect.length &&
+    (groups.zip expect).all (fun ge => Clem.LogFrame.rawWritesOkB ge.1 ge.2)
+  let mergeOk := match groups, expect with
+    | g1 :: g2 :: _, e1 :: e2 :: _ =>
+      !merge || Clem.LogFrame.allMergesFramedB g1 g2
+        ((Clem.LogFrame.parseLines e1).1 ++ (Clem.LogFrame.parseLines e2).1)
+    | _, _ => true
+  pure (jObj [("each", jBool each), ("merges", jBool mergeOk), ("all", jBool (each && mergeOk))])
+
 /-! ### stager -/
 open Clem.LogStager in
 def decArrival (j : Json) : R Arrival := do
@@ -201,7 +219,8 @@ def allTrue (h : Json → R Json) (j : Json) : R Json := do
 def routes : List (String × (Json → R Json)) :=
   [("c16.normalize", handleNormalize), ("c16.normok", handleNormOk),
    ("c16.parse", handleParse), ("c16.wellframed", handleWellFramed),
-   ("c16.interleave", handleInterleave), ("c16.rewrite", handleRewrite),
+   ("c16.interleave", handleInterleave), ("c16.rawwrites", allTrue handleRawWrites),
+   ("c16.rawwrites.detail", handleRawWrites), ("c16.rewrite", handleRewrite),
    ("c16.stager", handleStager), ("c16.stager.mon", allTrue handleStagerMon),
    ("c16.stager.mon.detail", handleStagerMon),
    ("c16.rotate", handleRotate), ("c16.rotate.mon", allTrue handleRotateMon),
